@@ -125,6 +125,10 @@ func checkImplementation(
 	// Create index of type's methods
 	typeMethods := make(map[string]TypeMethod)
 	for _, method := range typeModel.Methods {
+		if requirePointer && typeModel.UnderlyingType == "interface" {
+			// A pointer to an interface type has no methods
+			break
+		}
 		// Filter methods based on pointer requirement
 		if requirePointer {
 			// For &Interface, we need pointer receiver methods
